@@ -266,6 +266,18 @@ theorem no_publish_when_no_outputs (c : Cfg) (s : Option Settle) (p : PubOutcome
   · obtain ⟨outs, hres, hne, _⟩ := publish_effects_of c _ p e he h1
     simp at hres; exact absurd hres hne
 
+/-- every Publish call is immediately followed by its own return (nothing – in particular no settlement – happens
+    between the call and its return), and it is the call with the handler's topic and the chain's outputs -/
+theorem publish_call_then_ret (c : Cfg) (o : Outcome α) (p : PubOutcome) (i : Nat) (t : String) (ms : List α)
+    (h : (handle c o p)[i]? = some (.publishCall t ms)) :
+    (handle c o p)[i + 1]? = some (.publishRet (effPub c p)) ∧ t = pubTopic c ∧ o.result = .returns ms false := by
+  rcases o with ⟨s, r⟩
+  rcases c with ⟨kd, tp⟩
+  rcases s with _ | _ | _ <;> rcases r with ⟨_ | ⟨x, xs⟩, _ | _⟩ | v <;> cases kd <;> cases p <;>
+    simp only [handle, selfEff, publishProduced, settleTail, effPub, pubTopic, List.nil_append, List.cons_append] at h ⊢ <;>
+    (rcases i with _ | _ | _ | _ | _ | _ | _ | _ | _ <;> simp at h <;>
+      (obtain ⟨h1, h2⟩ := h; subst h1; subst h2; simp))
+
 /-! ## 6. the settlement the subscriber sees (first-wins, `Wm.Ack`) -/
 
 def selfOps : Option Settle → List Ack.Op
@@ -347,6 +359,7 @@ example : sentAfter .zero (handle ⟨.withPub, "out"⟩ ⟨some .ack, (.panics .
 -- the hypotheses of `publish_before_ack` / `publish_before_ack_idx` / `state_inside_publish` are satisfiable:
 example : handle ⟨.withPub, "t"⟩ ⟨none, .returns [5] false⟩ .accept =
     [.handlerCalled, .addCtx [5], .publishCall "t" [5], .publishRet .accept] ++ .routerAck :: [.done] := by decide
+example : (handle ⟨.withPub, "t"⟩ ⟨some .nack, .returns [5] false⟩ .accept)[3]? = some (.publishCall "t" [5]) := by decide
 example : (handle ⟨.withPub, "t"⟩ ⟨some .nack, .returns [5] false⟩ .accept)[4]? = some (.publishRet .accept) ∧
     (handle ⟨.withPub, "t"⟩ ⟨some .nack, .returns [5] false⟩ .accept)[5]? = some .routerAck := by decide
 
